@@ -861,6 +861,20 @@ func (s *Script) appendOp(o *op, left, right any) (pb *precBuf) {
 	return
 }
 
+// appendFloat appends a float so that it is read back as a float, a value
+// without a fraction is given one.
+func appendFloat(buf []byte, f float64) []byte {
+	start := len(buf)
+	buf = strconv.AppendFloat(buf, f, 'g', -1, 64)
+	for _, b := range buf[start:] {
+		switch b {
+		case '.', 'e', 'E', 'I', 'N': // fraction, exponent, Inf, or NaN
+			return buf
+		}
+	}
+	return append(buf, ".0"...)
+}
+
 func (s *Script) appendValue(buf []byte, v any, prec byte) []byte {
 	switch tv := v.(type) {
 	case nil:
@@ -872,7 +886,7 @@ func (s *Script) appendValue(buf []byte, v any, prec byte) []byte {
 	case int64:
 		buf = append(buf, strconv.FormatInt(tv, 10)...)
 	case float64:
-		buf = append(buf, strconv.FormatFloat(tv, 'g', -1, 64)...)
+		buf = appendFloat(buf, tv)
 	case bool:
 		if tv {
 			buf = append(buf, "true"...)
